@@ -6,6 +6,8 @@ import Driver.Common
 import Driver.Pixel
 import MilaModel.Model.Containers
 import MilaModel.Spec.TexContainers
+import MilaModel.Model.Lz
+import MilaModel.Spec.LzStream
 
 namespace Driver.Texc
 open Mila Mila.Containers Driver.Pixel
@@ -227,6 +229,49 @@ def family : Family where
             "FAIL generated file does not satisfy the container specification (harness/spec disagreement)"
           else if kind != "tpl" && names.eraseDups.length != names.length then "ok skip duplicate names"
           else if i.getD 2 "" != "ok" then "FAIL a conforming container must be read, got " ++ " ".intercalate ((i.drop 2).take 2)
+          else if (i.getD 3 "").toNat! ≠ texs.length then s!"FAIL {i.getD 3 ""} textures returned, {texs.length} packed"
+          else
+            let sorted := if kind == "tpl" then texs else texs.mergeSort (fun a b => bytesLe a.name b.name)
+            judgeFsEntries kind 0 sorted (i.drop 4)
+        out m o
+      else if op == "fsreadz" then
+        -- c = id :: "fsreadz" :: kind :: loc :: game :: ext :: stored :: file :: n :: texs…
+        let game := n
+        let ext := rest.getD 0 ""
+        let stored := bufOfHex (rest.getD 1 "-")
+        let file := bufOfHex (rest.getD 2 "-")
+        let n' := rest.getD 3 "~"
+        let claimed := n' != "~"
+        let parsed := if claimed then parseTexs kind file (rest.drop 4) else []
+        let texs := parsed.map (·.1)
+        let exts := parsed.map (·.2)
+        -- layered_filesystem.rs: the game fixes the compression format; a file whose name has the
+        -- format's suffix is decompressed on read, any other file is read as it is
+        let fmt : Lz.Format := if game == "FE9" || game == "FE10" then .lz10 else .lz13
+        let compressed := fmt.isCompressedFilename ("d/tex.bin" ++ ext).toUTF8.toList
+        let m :=
+          if compressed then
+            match fmt.decompress stored.toList with
+            | .ok d => fsOutcome kind (readKind p kind d)
+            | .err e => "err " ++ e.name
+            | .panic => "panic"
+          else fsOutcome kind (readKind p kind stored)
+        -- specification side: `stored` is a well-formed stream of the game's format that expands to `file`
+        let body : Bytes := if fmt == .lz13 then (if stored.getD 0 0 == 0x13 && stored.size ≥ 4 then stored.toList.drop 4 else []) else stored.toList
+        let encodes := compressed &&
+          (match Spec.Lz.parse body with
+           | .ok (e, n0, toks) => e == (fmt == .lz13) && n0 == file.size && Spec.Lz.validB e toks &&
+               (Spec.Lz.expandFrom (Array.emptyWithCapacity n0) toks) == file
+           | .error _ => false)
+        let names := texs.map (·.name)
+        let o :=
+          if !claimed then "ok skip"
+          else if n2Ambiguous kind file then "ok skip N2"
+          else if !encodes then "ok skip the stored bytes are not a well-formed stream of the file"
+          else if !(conforms kind file texs && extentsAgree kind file exts && texs.length == n'.toNat!) then
+            "FAIL generated file does not satisfy the container specification (harness/spec disagreement)"
+          else if kind != "tpl" && names.eraseDups.length != names.length then "ok skip duplicate names"
+          else if i.getD 2 "" != "ok" then "FAIL a conforming container stored compressed must be read, got " ++ " ".intercalate ((i.drop 2).take 2)
           else if (i.getD 3 "").toNat! ≠ texs.length then s!"FAIL {i.getD 3 ""} textures returned, {texs.length} packed"
           else
             let sorted := if kind == "tpl" then texs else texs.mergeSort (fun a b => bytesLe a.name b.name)
